@@ -410,6 +410,7 @@ func genKeyText(r *vlib.R) string {
 
 func (w *world) genB64() {
 	w.out("b64 new")
+	w.out("b64 enc " + vlib.Hex(w.r.Bytes(vlib.Pick(w.r, []int{0, 1, 2, 3, 4, 5, 31, 32, 33, 191, 192, 193, 300}))))
 	for i := 2 + w.r.Intn(5); i > 0; i-- {
 		w.out("b64 dec " + hexStr(genKeyText(w.r)))
 	}
